@@ -39,7 +39,7 @@ func (c20) Meta() fw.Meta {
 			"generate's random values are non-negative integers, so sums are exact",
 			"CLI instants are wall-clock (phase steered by waiting); all other phases come from the function-level driver",
 		},
-		Obligations: []string{"function_generations", "cli_generations", "slots_nonnan_checked", "covered_coarser_slots_checked", "partially_covered_coarser_slots", "newest_coarser_slot_fully_covered", "nfine_eq_ratio", "unaligned_instant", "aligned_instant", "nofill_all_zero", "existing_dest_refused", "instant_beyond_2_31", "cli_launches_across_second_boundary", "cli_generations_slowed_by_injected_delays", "exclusive_creation_races", "generations_with_stdout_on_a_full_device", "layout_list_reused_at_another_length"},
+		Obligations: []string{"function_generations", "cli_generations", "slots_nonnan_checked", "covered_coarser_slots_checked", "partially_covered_coarser_slots", "newest_coarser_slot_fully_covered", "nfine_eq_ratio", "unaligned_instant", "aligned_instant", "nofill_all_zero", "existing_dest_refused", "instant_beyond_2_31", "cli_launches_across_second_boundary", "cli_generations_slowed_by_injected_delays", "exclusive_creation_races", "generations_with_stdout_on_a_full_device", "layout_list_reused_at_another_length", "existing_placeholder_destinations"},
 		Workers:     12,
 	}
 }
@@ -372,6 +372,27 @@ func (c20) Run(c *fw.Ctx) {
 			return
 		}
 		c.Count("existing_dest_refused", 1)
+		// other kinds of existing destinations: an all-zero placeholder of the layout's size, a short all-zero file, an
+		// empty file - each exists, so each is refused and left as it is
+		for vi, img := range [][]byte{make([]byte, l.FileSize()), make([]byte, 16+r.Intn(4000)), {}} {
+			if c.Index%3 != vi {
+				continue
+			}
+			pp := filepath.Join(dir, fmt.Sprintf("placeholder-%d.wsp", vi))
+			ioutil.WriteFile(pp, img, 0644)
+			pargs := append([]string{}, args...)
+			for i := range pargs {
+				if pargs[i] == "-dest" {
+					pargs[i+1] = pp
+				}
+			}
+			res3 := runCLI(c, pargs...)
+			c.Count("existing_placeholder_destinations", 1)
+			if res3.Exit == 0 || !bytes.Equal(readFileOrNil(pp), img) {
+				c.Violationf("existing-dest-overwritten", fw.J{"run": res3.brief(), "existing_file": fmt.Sprintf("%d zero bytes", len(img))}, "generate on an existing destination (%d zero bytes) exited %d; file changed: %v", len(img), res3.Exit, !bytes.Equal(readFileOrNil(pp), img))
+				return
+			}
+		}
 	}
 	// ---------------- (d) the text output (stdout) sits on a full device: whatever generate reports, a reported success
 	// means a complete file (C20's oracle); a failure is fine
@@ -436,6 +457,19 @@ func (c20) Run(c *fw.Ctx) {
 				time.Sleep(20 * time.Millisecond)
 			}
 			time.Sleep(300 * time.Millisecond)
+			// a second generate for the same destination while the first is still at work (its header is not on disk
+			// yet): the destination exists, so the second must refuse - and must not wait to overwrite it later
+			var second *exec.Cmd
+			secondDone := make(chan error, 1)
+			if fileExists(path) && c.Index%32 == 4 {
+				second = exec.Command(cliBin(c), "generate", "-dest", path, "-agg-method", "max", "-retentions", "1s:10s", "-text-out", "")
+				if second.Start() == nil {
+					go func() { secondDone <- second.Wait() }()
+					c.Count("second_generate_while_first_at_work", 1)
+				} else {
+					second = nil
+				}
+			}
 			marker := []byte("competitor content, created with O_EXCL while generate was running")
 			competitorWon := false
 			if f, err := os.OpenFile(path, os.O_WRONLY|os.O_CREATE|os.O_EXCL, 0644); err == nil {
@@ -446,6 +480,21 @@ func (c20) Run(c *fw.Ctx) {
 			io.Copy(ioutil.Discard, stdout)
 			werr := cmd.Wait()
 			c.Count("exclusive_creation_races", 1)
+			if second != nil {
+				var serr error
+				select {
+				case serr = <-secondDone:
+				case <-time.After(60 * time.Second):
+					second.Process.Kill()
+					serr = fmt.Errorf("killed after 60 s")
+				}
+				ph, _, _, perr := rawOfFile(path)
+				if serr == nil || (werr == nil && (perr != nil || int(ph.Count) != 1 || ph.Points[0] != big.Archs[0].Points)) {
+					c.Violationf("existing-dest-overwritten", fw.J{"second_generate_error": fmt.Sprint(serr), "first_generate_error": fmt.Sprint(werr)},
+						"a second generate was started for a destination that another generate was still writing: it exited with %v; the finished file has the first run's layout: %v", serr, perr == nil && ph != nil && ph.Points[0] == big.Archs[0].Points)
+					return
+				}
+			}
 			if competitorWon {
 				now := readFileOrNil(path)
 				if werr == nil || !bytes.Equal(now, marker) {
